@@ -247,7 +247,7 @@ fn exec_op(op: &Value, fut_default: bool) -> bool {
                     }
                     "try_iter" => prim("recv", "try_iter", hn, hk, -1, "", || match h.try_iter_next() {
                         Some(v) => Res::Val(v),
-                        None => Res::Err,
+                        None => Res::End,
                     }),
                     _ => prim("recv", "try_recv", hn, hk, -1, "", || h.try_recv()),
                 };
